@@ -260,6 +260,11 @@ def run(ctx: Ctx) -> None:
         cases.append(e["witness"]); ctx.corpus_cases += 1
     for _ in range(ctx.n(1500, 20000)):
         cases.append({"kind": "order", "d": enc(gen.tree_dict(rng, rng.randint(1, 5), rng.randint(1, 6)))})
+    for _ in range(ctx.n(20, 300)):
+        d = gen.size_dict(rng)                  # many keys / long keys: sorting around size thresholds
+        cases.append({"kind": "order", "d": enc(d)})
+        if len(str(d)) < 20000:
+            cases.append({"kind": "files", "d": enc({k: v for k, v in d.items() if not isinstance(v, float)})})
     for _ in range(ctx.n(300, 3000)):
         cases.append(_sd_case(rng))
     for _ in range(ctx.n(150, 2500)):
